@@ -15,7 +15,9 @@
     recorded together with the counts of their parts and TLC decides additivity / repetition; Resources.add_* / multiply_* likewise."""
 import collections
 import json
+import os
 import random
+import time
 
 import pennylane.estimator as qre
 from pennylane.estimator import CompressedResourceOp, GateCount
@@ -203,7 +205,9 @@ def est_record(cfg, res, exc, calls, lb=-1, algoexp=-1):
     fin = {"ok": res is not None, "z": -1, "a": -1, "algo": -1, "total": -1}
     if res is not None:
         fin = {"ok": True, "z": int(res.zeroed_wires), "a": int(res.any_state_wires), "algo": int(res.algo_wires), "total": int(res.total_wires)}
-    return {"kind": "est", "cfg": {"z": cfg[0], "a": cfg[1], "algo": 0, "tight": bool(cfg[2])}, "calls": calls, "fin": fin, "lb": lb,
+    # the manager's algorithmic wires are fixed before the first call: read them off the first recorded total
+    algo = calls[0]["t"] - calls[0]["z"] - calls[0]["a"] if calls else max(fin["algo"], 0)
+    return {"kind": "est", "cfg": {"z": cfg[0], "a": cfg[1], "algo": algo, "tight": bool(cfg[2])}, "calls": calls, "fin": fin, "lb": lb,
             "algoexp": algoexp, "parts": [], "whole": [], "op": ""}
 
 
@@ -381,6 +385,11 @@ def run(tier, seed):
     quick = tier == "quick"
     rng = random.Random(seed)
     viol, seen = [], collections.Counter()
+    t_start = time.time()
+
+    def tick(what):
+        if os.environ.get("VERIF_TIMING"):
+            print(f"[C47 {time.time() - t_start:6.1f}s] {what}")
 
     def flag(key, detail, replay):
         seen[key] += 1
@@ -404,6 +413,7 @@ def run(tier, seed):
         raise lib.MachineryError(f"Estimator.tla violates its own law {g_wf.invariant_violated} (oracle error): " + g_wf.out[-1500:])
     lib.require_ok(g_wf, "EstimatorGen (wf)")
     hists, cases = g_wm.json_lines, g_wf.json_lines
+    tick(f"generators done: {len(hists)} histories, {len(cases)} workflows")
     if len(hists) < 1000 or len(cases) < 1000:
         raise lib.MachineryError(f"generators produced too few cases ({len(hists)}, {len(cases)})")
     # ---------------------------------------------------------------- (R1) manager histories
@@ -428,6 +438,7 @@ def run(tier, seed):
                 flag(f"WireResourceManager.{'grab_zeroed' if e['op'] == 'grab' else 'free_wires'}:{clause}",
                      f"cfg={c} calls={[(x['op'], x['n']) for x in h['calls'][:i + 1]]}: expected {exp}, got {got}", {"cfg": c, "calls": h["calls"][:i + 1]})
                 break
+    tick("manager histories replayed")
     # ---------------------------------------------------------------- (R2) workflows through estimate
     closure = wrapper_closure()
     traces, tmeta = [], []
@@ -493,9 +504,11 @@ def run(tier, seed):
         if {k: v for k, v in got.items() if v} == {k: v for k, v in bad.items() if v}:
             raise lib.MachineryError("negative control accepted by the count comparator")
         neg_cmp = 1
+        tick("workflows replayed")
         # ---------------------------------------------------------------- (T) library workflows + random manager histories
         lrecs, lmeta, lst = library_traces(rng, 700 if quick else 8000, rec)
     st.update(lst)
+    tick("library traces recorded")
     wrecs = random_wm_traces(rng, 400 if quick else 5000, 14)
     base_n = len(traces)
     allrecs = traces + lrecs + wrecs
@@ -526,6 +539,7 @@ def run(tier, seed):
     r = lib.run_tlc("Trace_Estimator", lib.cfg(init="TInit", next_="TNext", constants={"NTRACES": len(allrecs), "Lib": 0, "Width": 0}), wd,
                     env={"TRACE_FILE": str(wd / "traces.json")}, timeout=3000)
     lib.require_ok(r, "Trace_Estimator")
+    tick("trace validation done")
     verd = {t[1] - 1: (t[2], t[3]) for t in r.tuples if t[0] == "V"}
     if len(verd) != len(allrecs):
         raise lib.MachineryError(f"verdicts not total: {len(verd)} of {len(allrecs)}")
